@@ -175,7 +175,7 @@ Section P3.
   Definition dict_node_ok (n : snode) : bool :=
     match n with
     | SNode (KBin _) _ _ => false
-    | SNode (KModel _ _) _ _ => negb (no_priors V n)
+    | SNode (KModel _ _) _ _ => negb (as_instance V cf n)
     | SDict items => fix_falsy cf || forallb (fun kv => negb (falsy (snd kv))) items
     | _ => true
     end.
@@ -187,8 +187,8 @@ Section P3.
   Qed.
 
   Lemma dict_hyps (m : snode) : dict_node_ok m = true ->
-    dict_pre V m = None /\ as_instance V m = false /\
-    (forall ch asr, dict_post V m ch asr = rebuild_same V m ch asr) /\
+    dict_pre V cf m = None /\ as_instance V cf m = false /\
+    (forall ch asr, dict_post V cf m ch asr = rebuild_same V m ch asr) /\
     (forall items, m = SDict items -> dict_filter V falsy cf items = items).
   Proof.
     destruct m as [p sp|v|items|k ch0 asr0]; intro H.
@@ -196,8 +196,8 @@ Section P3.
     - repeat split; try reflexivity. intros; discriminate.
     - repeat split; try reflexivity. intros items' E. inversion E; subst. unfold dict_filter. simpl in H.
       destruct (fix_falsy cf); [reflexivity|]. simpl in H. apply filter_all. exact H.
-    - destruct k as [cls ctor| |idx|o|cls ctor]; simpl in H; try discriminate.
-      + apply negb_true_iff in H. unfold dict_pre, as_instance, dict_post. rewrite H. simpl.
+    - destruct k as [cls ctor| |idx|o|cls ctor]; cbn [dict_node_ok] in H; try discriminate.
+      + apply negb_true_iff in H. cbn [dict_pre dict_post]. rewrite H. cbn [andb].
         repeat split; try reflexivity. intros; discriminate.
       + repeat split; try reflexivity. intros; discriminate.
       + repeat split; try reflexivity. intros; discriminate.
